@@ -15,6 +15,11 @@ Domain (one case = one fresh session):
           global_request, open_session) are then parked in Transport._send_user_message behind the
           unfinished exchange; "send@rekey-zero-window" sits in the window wait and the re-exchange
           starts while it waits; recv / accept(None) wait where they always wait
+  pre     for the channel-level calls: the history of the channel object before the call - none, shutdown_read(),
+          shutdown_write(), shutdown(2), EOF received from the peer, set_combine_stderr(True). Where that history
+          makes the call non-blocking by contract (recv after the peer's EOF, send after shutdown_write, channel requests
+          after EOF in either direction) only the
+          loss-first / together moments apply
   timeout None, or 5 s where the API has a timeout knob (settimeout / timeout= / auth_timeout)
   moment  call-first (the call is verifiably blocked, then the loss happens), loss-first (the loss
           happened and the transport noticed it, then the call is issued), together (call and
@@ -56,12 +61,14 @@ RULE = (
     "call x loss x moment x timeout x via(link|ProxyCommand child) enumerated; the call domain includes, for the sending calls "
     "(send, sendall, exec_command, invoke_subsystem, global_request, open_session) and for recv / accept / a send on a zero window, "
     "the state 'a key re-exchange is in flight' (started by the tested side or by the peer - drawn -, the peer's next kex packet held on the link, "
-    "so the sending calls are parked in Transport._send_user_message and the starting renegotiate_keys() is one more blocked call) (quick: every applicable call x loss pair "
+    "so the sending calls are parked in Transport._send_user_message and the starting renegotiate_keys() is one more blocked call); the channel-level calls "
+    "additionally x channel pre-state {none, shutdown_read, shutdown_write, shutdown(2), peer EOF received, set_combine_stderr} (quick: every channel call x pre-state "
+    "once in call-first order with a rotating loss, drawn in the other moments; thorough: x every loss x moment) (quick: every applicable call x loss pair "
     "once in call-first order over the link, every client call over a real ProxyCommand child for the proxy losses, plus "
     "drawn loss-first/together cases; thorough: full product x 3 moments x repetitions, sharded), errno / garbage flavour / "
     "skew drawn by hypothesis; cases run 6-8 at a time in threads (own Link/transports each); non-trivial = the caller thread "
     "was observed (sys._current_frames, two samples) inside the expected paramiko wait with its request seen by the mute peer (or the held kex packet seen on the link) "
-    "when the loss was triggered, or the call was issued after the loss; distinct by (call, loss, moment, timeout, via, flavour, skew); "
+    "when the loss was triggered, or the call was issued after the loss; distinct by (call, pre-state, loss, moment, timeout, via, flavour, skew); "
     "a timeout counts only after 3 consecutive failing runs"
 )
 THOROUGH_WORKERS = 16
@@ -248,11 +255,26 @@ MOMENTS = ("call-first", "loss-first", "together")
 # persistent, so a persistent ETIMEDOUT would model a link that is merely idle, not a lost one.
 ERRNOS = (errno.ECONNRESET, errno.ENETUNREACH, errno.EHOSTUNREACH, errno.EPIPE, errno.ENETDOWN, errno.ECONNABORTED, errno.EIO, errno.ENOTCONN)
 
+# history of the channel object before the call (channel-level calls only)
+PRE_STATES = ("none", "shutdown_read", "shutdown_write", "shutdown_rdwr", "peer-eof", "combine-stderr")
+# (base call, pre-state) pairs that return at once by contract, connection or not: never "blocked at the loss"
+PRE_NOT_BLOCKING = frozenset(
+    [(c, "peer-eof") for c in ("recv", "recv_stderr")]
+    + [(c, p) for c in ("send", "sendall") for p in ("shutdown_write", "shutdown_rdwr")]
+    # channel requests are refused ("Channel is not open") once either direction has seen / feigned EOF
+    + [(c, p) for c in ("exec_command", "invoke_subsystem") for p in ("shutdown_read", "shutdown_write", "shutdown_rdwr", "peer-eof")]
+)
 
-def applicable(call, loss, moment, timeout, via):
+
+def applicable(call, loss, moment, timeout, via, pre="none"):
     sp = CALLS[call]
     if moment not in sp.moments or timeout not in sp.timeouts:
         return False
+    if pre != "none":
+        if not sp.chan:
+            return False
+        if moment == "call-first" and (call.split("@")[0], pre) in PRE_NOT_BLOCKING:
+            return False
     if via == "proxy" and sp.role != "client":
         return False
     if loss in PROXY_LOSSES and via != "proxy":
@@ -528,6 +550,8 @@ class Env:
                 if sp.fill:
                     self.chan.settimeout(SETUP_T)
                     self.chan.sendall(b"a" * 32768)
+            if self.case.get("pre", "none") != "none":
+                self.apply_pre()
         except (paramiko.SSHException, socket.timeout, EOFError, OSError) as e:
             raise Inconclusive("session setup failed: %r" % (e,))
         if sp.role == "client" or sp.rekey:
@@ -537,6 +561,30 @@ class Env:
                 self.rx.set_hold(True)
         if sp.rekey and not (sp.rekey == "after-call" and self.case["moment"] == "call-first"):
             self.start_rekey()
+
+    def apply_pre(self):
+        """Give the channel its history (public API only); the peer is still answering at this point."""
+        pre, ch = self.case["pre"], self.chan
+        if pre == "shutdown_read":
+            ch.shutdown_read()
+        elif pre == "shutdown_write":
+            ch.shutdown_write()
+        elif pre == "shutdown_rdwr":
+            ch.shutdown(2)
+        elif pre == "combine-stderr":
+            ch.set_combine_stderr(True)
+        elif pre == "peer-eof":
+            # EOF for the tested channel, then a global request the tested side has to answer: messages are handled in
+            # order, so once the answer is on the wire the EOF has been processed
+            n0 = len(self.tx.sent)
+            self.peer.send_raw_seq(peers.m_channel_eof(ch.get_id()))
+            self.peer.send_raw_seq(peers.m_global_request(b"sync@verif", True))
+            if not self.tx.wait_sent(n0 + 1, SETUP_T):
+                raise Inconclusive("peer EOF not processed")
+        else:
+            raise core.HarnessError("unknown pre-state %r" % pre)
+        if pre in ("shutdown_write", "shutdown_rdwr") and not self.link.wait_quiescent(SETUP_T):
+            raise Inconclusive("link not quiescent after shutdown")
 
     def start_rekey(self):
         """Put a key re-exchange in flight that cannot finish: the inbound direction is held, so the peer's next
@@ -903,7 +951,8 @@ def decide(case, tmpdir, fam):
 
 
 def bucket_of(case):
-    return "%s:%s:%s" % (case["call"], case["loss"] if case["via"] == "link" or case["loss"] in PROXY_LOSSES else "proxy+" + case["loss"], case["moment"])
+    pre = case.get("pre", "none")
+    return "%s:%s:%s" % (case["call"] + ("" if pre == "none" else "+" + pre), case["loss"] if case["via"] == "link" or case["loss"] in PROXY_LOSSES else "proxy+" + case["loss"], case["moment"])
 
 
 def record(ctx, case, r):
@@ -917,13 +966,18 @@ def record(ctx, case, r):
         ctx.case(case, False, ["inconclusive"])
         return
     cls = ["call:" + case["call"], "loss:" + case["loss"], "moment:" + case["moment"], "via:" + case["via"], "timeout:%s" % case["timeout"]] + r["classes"]
+    if case.get("pre", "none") != "none":
+        cls += ["pre:" + case["pre"], "pre:%s:%s" % (base_call(case), case["pre"])]
     ctx.case(case, r["nontrivial"], cls)
     if r["status"] == "violation":
         ctx.violation(r["clause"], bucket_of(case), case, r["detail"])
 
 
-def mk_case(call, loss, moment, timeout, via, flavor=0, skew=0):
-    return {"call": call, "loss": loss, "moment": moment, "timeout": timeout, "via": via, "flavor": flavor, "skew": skew if moment == "together" else 0}
+def mk_case(call, loss, moment, timeout, via, flavor=0, skew=0, pre="none"):
+    case = {"call": call, "loss": loss, "moment": moment, "timeout": timeout, "via": via, "flavor": flavor, "skew": skew if moment == "together" else 0}
+    if pre != "none":
+        case["pre"] = pre
+    return case
 
 
 # ----------------------------------------------------------------------------- campaign
@@ -985,27 +1039,38 @@ class Pool:
 
 
 def worklist(ctx):
-    """[(call, loss, moment, timeout-or-'draw', via)] in execution order."""
+    """[(call, loss, moment, timeout-or-'draw', via, pre)] in execution order."""
     items = []
     if ctx.quick:
+        rot = 0
         for call in CALLS:
             for loss in LINK_LOSSES:
-                items.append((call, loss, "call-first", "draw", "link"))
+                items.append((call, loss, "call-first", "draw", "link", "none"))
             if CALLS[call].role == "client":
                 # over a real ProxyCommand child: both proxy losses, plus one loss that reaches the transport some other way
                 for loss in PROXY_LOSSES + (("local-close", "garbage", "disconnect")[len(items) % 3],):
-                    items.append((call, loss, "call-first", "draw", "proxy"))
+                    items.append((call, loss, "call-first", "draw", "proxy", "none"))
+            if CALLS[call].chan:
+                # every channel pre-state once per call, the loss rotating through the link losses
+                for pre in PRE_STATES[1:]:
+                    if applicable(call, LINK_LOSSES[0], "call-first", None, "link", pre):
+                        items.append((call, LINK_LOSSES[rot % len(LINK_LOSSES)], "call-first", "draw", "link", pre))
+                        rot += 1
     else:
         reps = 3
         full = []
+        extra = []
         for call, sp in CALLS.items():
             for via in ("link", "proxy"):
                 for loss in LINK_LOSSES + PROXY_LOSSES:
                     for moment in MOMENTS:
                         for t in sp.timeouts:
-                            full.append((call, loss, moment, t, via))
+                            full.append((call, loss, moment, t, via, "none"))
+                        if sp.chan:
+                            for pre in PRE_STATES[1:]:
+                                extra.append((call, loss, moment, sp.timeouts[(len(extra) // 5) % len(sp.timeouts)], via, pre))
         full = [x for x in full if applicable(*x)]
-        full = full * reps
+        full = full * reps + [x for x in extra if applicable(*x)]
         items = [x for i, x in enumerate(full) if i % ctx.nworkers == ctx.worker]
     # slow-by-design cases first (accept(5) waits out its 5 s when nothing wakes it)
     items.sort(key=lambda x: 0 if x[0] == "accept-5" else 1)
@@ -1026,13 +1091,15 @@ def run(ctx):
     draw = st.tuples(st.booleans(), st.integers(0, 63), st.integers(-100, 100))
 
     def submit(chosen):
-        for (call, loss, moment, t, via), (use_t, flavor, skew) in chosen:
+        for (call, loss, moment, t, via, pre), (use_t, flavor, skew) in chosen:
             if t == "draw":
                 ts_ = CALLS[call].timeouts
                 t = ts_[-1] if use_t else ts_[0]
-            if not applicable(call, loss, moment, t, via):
+            if pre != "none" and not applicable(call, loss, moment, t, via, pre):
+                pre = "none"  # drawn pre-state does not apply to this call / moment
+            if not applicable(call, loss, moment, t, via, pre):
                 continue
-            case = mk_case(call, loss, moment, t, via, flavor, skew)
+            case = mk_case(call, loss, moment, t, via, flavor, skew, pre)
             key = exclusion(case, fam)
             if key:
                 ctx.exclude(key)
@@ -1073,14 +1140,15 @@ def run(ctx):
         st.sampled_from(MOMENTS[1:] if ctx.quick else MOMENTS),
         st.sampled_from(("link", "link", "proxy")),
         draw,
+        st.sampled_from(("none",) * 3 + PRE_STATES[1:]),
     )
 
     def rnd_body(lst):
         chosen = []
-        for call, loss, moment, via, d in lst:
+        for call, loss, moment, via, d, pre in lst:
             if loss in PROXY_LOSSES:
                 via = "proxy"
-            chosen.append(((call, loss, moment, "draw", via), d))
+            chosen.append(((call, loss, moment, "draw", via, pre), d))
         submit(chosen)
 
     ctx.explore(st.lists(rnd, min_size=per, max_size=per), skipping_first(rnd_body), ctx.scale(2, 6) + 1, shrink=False, seed_offset=1)
@@ -1105,7 +1173,7 @@ _deferred = []
 
 
 def _norm(case):
-    return mk_case(case["call"], case["loss"], case["moment"], case["timeout"], case["via"], case.get("flavor", 0), case.get("skew", 0))
+    return mk_case(case["call"], case["loss"], case["moment"], case["timeout"], case["via"], case.get("flavor", 0), case.get("skew", 0), case.get("pre", "none"))
 
 
 def _collect(ctx, case, th):
